@@ -428,7 +428,8 @@ def summarize(b):
                    app, frozenset(n.id for n in so.otherNodes), frozenset(b.tr.connected),
                    frozenset(b.tr.ro_local), so.getCodeVersion(), so.selfNode is not None, so.isReady(),
                    tuple(sorted(b.extra.items())) + (('quorum', bool(so.hasQuorum)),
-                                                       ('selfver', so.getStatus()['self_code_version'])))
+                                                       ('selfver', so.getStatus()['self_code_version'])) +
+                   ((('zbat', tuple(battery_state(c) for c in _consumers(so))),) if _consumers(so) else ()))
 
 
 def decode_cmd(cmd):
@@ -506,6 +507,52 @@ class Config(object):
         return {k: v for k, v in d.items() if v is not None and v != {} and k not in ('consumers',)}
 
 
+def _consumer_sets():
+    from pysyncobj import batteries as B
+    return {
+        'counter': lambda: [B.ReplCounter()],
+        'list': lambda: [B.ReplList()],
+        'dict': lambda: [B.ReplDict()],
+        'set': lambda: [B.ReplSet()],
+        'queue2': lambda: [B.ReplQueue(2)],
+        'pqueue2': lambda: [B.ReplPriorityQueue(2)],
+        'queue+dict': lambda: [B.ReplQueue(2), B.ReplDict()],
+        'all': lambda: [B.ReplCounter(), B.ReplList(), B.ReplDict(), B.ReplSet(), B.ReplQueue(2), B.ReplPriorityQueue(2)],
+    }
+
+
+BATTERY_OPS = {
+    'counter': [(0, 'inc', ()), (0, 'add', (2,)), (0, 'set', (0,))],
+    'list': [(0, 'append', (1,)), (0, 'append', (0,)), (0, 'pop', ()), (0, 'remove', (1,)), (0, 'sort', ()), (0, 'insert', (0, 2))],
+    'dict': [(0, 'set', ('a', 1)), (0, 'set', ('b', 0)), (0, 'pop', ('a',)), (0, 'setdefault', ('b', 2)), (0, 'clear', ())],
+    'set': [(0, 'add', (1,)), (0, 'add', (2,)), (0, 'remove', (1,)), (0, 'discard', (2,)), (0, 'pop', ())],
+    'queue2': [(0, 'put', (1,)), (0, 'put', (0,)), (0, 'get', ())],
+    'pqueue2': [(0, 'put', (1,)), (0, 'put', (0,)), (0, 'get', ())],
+    'queue+dict': [(0, 'put', (1,)), (0, 'get', ()), (1, 'set', ('a', 1)), (1, 'pop', ('a',))],
+    'all': [(0, 'inc', ()), (1, 'append', (1,)), (1, 'pop', ()), (2, 'set', ('a', 1)), (3, 'add', (1,)), (4, 'put', (1,)), (4, 'get', ()),
+            (5, 'put', (0,)), (5, 'get', ())],
+}
+
+
+def battery_state(c):
+    # every instance attribute except the back-reference and the bookkeeping set (NOT _serialize():
+    # what is left out of snapshots by mistake must show up as a difference)
+    d = {k: v for k, v in c.__dict__.items() if k != '_syncObj' and not k.endswith('__properies')}
+    out = []
+    for k in sorted(d):
+        v = d[k]
+        if isinstance(v, (set, frozenset)):
+            v = ('set', tuple(sorted(v, key=repr)))
+        elif isinstance(v, dict):
+            v = ('dict', tuple(sorted(v.items(), key=repr)))
+        elif isinstance(v, collections.deque):
+            v = ('deque', tuple(v))
+        elif isinstance(v, list):
+            v = ('list', tuple(v))
+        out.append((k.split('__')[-1], v))
+    return tuple(out)
+
+
 OBJ_CLASSES = {'list': ListObj, 'vold': VOld, 'vnew': VNew, 'vmixed': _vmixed}
 
 
@@ -543,7 +590,7 @@ def build_node(cfg, nid, members, vfs_obj=None, now=T0, kills=0, extra=None):
     if not isinstance(cls, type):
         cls = cls(nid, cfg)
     is_obs = nid.startswith('o')
-    consumers = cfg.consumers() if cfg.consumers else None
+    consumers = _consumer_sets()[cfg.consumers]() if cfg.consumers else None
     b.so = cls(None if is_obs else nid, [m for m in members if m != nid], conf, b.tr, consumers=consumers)
     b.rec.so = b.so
     b.now = seams.CLOCK[0]
@@ -681,6 +728,9 @@ def run_event(b, ev, cfg, kill_at=None):
             # ('put', sid, method, args, kwargs)
             sid = ev[1]
             getattr(b.so, ev[2])(sid, *ev[3], callback=functools.partial(b.rec.cb, sid), **dict(ev[4]))
+        elif kind == 'bop':
+            # ('bop', sid, consumer index, method, args): a call on a battery
+            getattr(_consumers(b.so)[ev[2]], ev[3])(*ev[4], callback=functools.partial(b.rec.cb, ev[1]))
         elif kind == 'call0':
             # ('call0', sid, method): replicated call without any argument
             getattr(b.so, ev[2])(callback=functools.partial(b.rec.cb, ev[1]))
@@ -876,6 +926,9 @@ class ClusterModel(object):
                 evs.append(('S', n))
                 for meth in self.cfg.methods:
                     evs.append(('SM', n, meth))
+            if bud['S'] > 0 and self.cfg.consumers:
+                for oi in range(len(BATTERY_OPS[self.cfg.consumers])):
+                    evs.append(('BO', n, oi))
             if bud['K'] > 0:
                 evs.append(('K', n))
             if bud['J'] > 0 and self.cfg.journal:
@@ -1085,6 +1138,12 @@ class ClusterModel(object):
             if ev[2].endswith('0'):
                 return self.node_step(w, ev[1], ('call0', ('z', w.nsub), ev[2]), budget=bud, nsub=w.nsub + 1, label=ev)
             return self.node_step(w, ev[1], ('put', w.nsub, ev[2], (), ()), budget=bud, nsub=w.nsub + 1, label=ev)
+        if kind == 'BO':   # battery operation number ev[2] of the configured consumer set
+            bud = self.spend(w, 'S') if ev[-1] != 'free' else w.budget
+            if bud is None:
+                return None
+            ci, name, args = BATTERY_OPS[self.cfg.consumers][ev[2]]
+            return self.node_step(w, ev[1], ('bop', ('b', w.nsub), ci, name, args), budget=bud, nsub=w.nsub + 1, label=ev)
         if kind == 'SA':   # ('SA', node, pickled (args, kwargs)): put with explicit arguments, no budget
             return self.node_step(w, ev[1], ('putp', w.nsub, 'put', ev[2]), nsub=w.nsub + 1, label=ev)
         if kind == 'K':
